@@ -484,6 +484,9 @@ pub fn run(cfg: &Cfg, rep: &mut Report) {
     rep.evaluations += 1;
     let o = observe(&c);
     rep.set("conversions_covered", &format!("{:?}", c.conv));
+    if c.via_share {
+      rep.count("conversions_attached_through_a_share", 1);
+    }
     let script = script_of(&c);
     let term = script.last().filter(|n| n.is_terminal()).cloned();
     match &o {
